@@ -258,6 +258,16 @@ Definition each_field (vo : value -> ty -> bool) (fields : list inputvaldef) :=
         (match arg_named fields (iname k) with Some fd => vo fv (iv_type fd) | None => false end) && each r
     end.
 
+(** a constant contains no variable, at any depth *)
+Fixpoint no_vars (v : value) : bool :=
+  match v with
+  | VVar _ _ => false
+  | VList _ vs => forallb no_vars vs
+  | VObject _ fs => (fix each (l : list (ident * value)) : bool :=
+                       match l with [] => true | (_, fv) :: r => no_vars fv && each r end) fs
+  | _ => true
+  end.
+
 (** a non-null constant against a named type; [vo] is value_ok itself (for the fields of an input-object literal) *)
 Definition named_ok (vo : value -> ty -> bool) (strict_int : bool) (doc : tsdoc) (v : value) (n : ident) : bool :=
   match lookup_t doc (iname n) with
@@ -267,13 +277,12 @@ Definition named_ok (vo : value -> ty -> bool) (strict_int : bool) (doc : tsdoc)
       else if str_eqb (iname n) (s "String") then (match v with VString _ _ => true | _ => false end)
       else if str_eqb (iname n) (s "Boolean") then (match v with VBool _ _ => true | _ => false end)
       else if str_eqb (iname n) (s "ID") then (match v with VString _ _ | VInt _ _ => true | _ => false end)
-      else true
+      else no_vars v       (* a custom scalar: any constant *)
   | Some (TDEnum _ _ _ _ vals _) =>
       match v with VEnum _ x => existsb (fun m => str_eqb (iname (ev_name m)) x) vals | _ => false end
   | Some (TDInput _ _ _ _ fields _) =>
       match v with
       | VObject _ fs =>
-          nodup_str (map (fun kv => iname (fst kv)) fs) &&
           each_field vo fields fs &&
           (* every required field is provided *)
           forallb (fun fd => negb (is_required fd) || existsb (fun kv => str_eqb (iname (fst kv)) (iname (iv_name fd))) fs)
@@ -322,6 +331,21 @@ Definition ok_directive_args_lenient (doc : tsdoc) : bool := ok_directive_args_g
 (** Argument Uniqueness (5.4.2), not among the rules nitrogql implements *)
 Definition ok_app_arg_unique (doc : tsdoc) : bool :=
   forallb (fun la => forallb (fun a : directive => nodup_str (map (fun kv => iname (fst kv)) (app_args a))) (snd la)) (all_apps doc).
+
+(** Input Object Field Uniqueness (5.6.3), not among the rules nitrogql implements: no input-object literal, at
+    any depth of an argument value, names a field twice *)
+Fixpoint literal_fields_unique (v : value) : bool :=
+  match v with
+  | VList _ vs => forallb literal_fields_unique vs
+  | VObject _ fs =>
+      nodup_str (map (fun kv : ident * value => iname (fst kv)) fs) &&
+      (fix each (l : list (ident * value)) : bool :=
+         match l with [] => true | (_, fv) :: r => literal_fields_unique fv && each r end) fs
+  | _ => true
+  end.
+Definition ok_literal_field_unique (doc : tsdoc) : bool :=
+  forallb (fun la => forallb (fun a : directive => forallb (fun kv : ident * value => literal_fields_unique (snd kv)) (app_args a))
+                             (snd la)) (all_apps doc).
 
 (** * Directive definitions must not reference themselves, directly or indirectly (spec 3.13) *)
 (** directives applied on the definition of a named type, anywhere inside it *)
@@ -372,9 +396,9 @@ Inductive rule :=
 | RUnionMemberNotObject | RDirectiveUnknown | RDirectiveMisplaced | RDirectiveRepeated | RDirectiveArgs
 | RDirectiveRecursive.
 
-(** [spec] = true: every rule as the specification reads it.  [spec] = false: one rule in the scope the current
-    implementation gives it (directive self-reference through the argument's own named type only, not through the
-    types of input-object fields) -- see C05_sound_directive_recursive_nested_refuted. *)
+(** [spec] = true: every rule as the specification reads it (what the theorems and the check use).  [spec] = false
+    keeps the one-level reading of directive self-reference that nitrogql had before 2bc0346 (through the argument's
+    own named type only), for reference. *)
 Definition rule_ok_gen (spec : bool) (r : rule) (doc : tsdoc) : bool :=
   match r with
   | RReserved => ok_reserved doc | RDupField => ok_dup_field doc | RDupArg => ok_dup_arg doc
@@ -395,8 +419,6 @@ Definition all_rules : list rule :=
    ROutputInInput; RNotInterface; RImplementsSelf; RMissingTransitive; RIfaceFieldMissing; RIfaceFieldType;
    RIfaceArgMissing; RIfaceArgType; RIfaceExtraRequiredArg; RUnionMemberNotObject; RDirectiveUnknown;
    RDirectiveMisplaced; RDirectiveRepeated; RDirectiveArgs; RDirectiveRecursive].
-Definition rule_ok_impl (r : rule) (doc : tsdoc) : bool := rule_ok_gen false r doc.
-
 Definition violated (doc : tsdoc) : list rule := filter (fun r => negb (rule_ok r doc)) all_rules.
 
 (** * Further validity conditions of the specification that nitrogql does not implement *)
@@ -455,12 +477,12 @@ Definition ok_implements_acyclic (doc : tsdoc) : bool :=
                            (impl_closure doc (length doc) (add_new [] (map iname (snd (fst c))))))) (comps doc).
 
 (** well-formedness premises under which the rule booleans are read *)
-Definition wf_doc (doc : tsdoc) : bool := unique_names doc && ok_app_arg_unique doc && ok_app_args_nonempty doc.
+Definition wf_doc (doc : tsdoc) : bool := unique_names doc && ok_app_args_nonempty doc.
 
 Definition spec_valid (doc : tsdoc) : bool :=
   unique_names doc && forallb (fun r => rule_ok r doc) all_rules &&
   ok_app_arg_unique doc && ok_app_args_nonempty doc && root_ok doc && nonempty_ok doc && implements_unique_ok doc &&
-  ok_implements_acyclic doc.
+  ok_implements_acyclic doc && ok_literal_field_unique doc.
 
 (** * before extensions are resolved: two definitions of the same kind with one name (spec: type names are unique) *)
 Definition same_kind (a b : typedef) : bool :=
